@@ -78,6 +78,32 @@ def late_bound_in(fns, with_yield=True):
                         free = {n.id for n in _ast.walk(lam.body) if isinstance(n, _ast.Name) and isinstance(n.ctx, _ast.Load)} - params
                         if free & loopvars:
                             out.append((g.site(lam), sorted(free & loopvars), _ast.unparse(lam.body)))
+            if isinstance(node, _ast.FunctionDef) and loopvars and node is not g.node:
+                # a function DEFINED in the loop body and put away for later (appended, yielded, returned, stored): it reads the loop variable when it is called
+                params = {a.arg for a in node.args.args + node.args.kwonlyargs + node.args.posonlyargs}
+                if node.args.vararg:
+                    params.add(node.args.vararg.arg)
+                if node.args.kwarg:
+                    params.add(node.args.kwarg.arg)
+                assigned = {n.id for b_ in node.body for n in _ast.walk(b_) if isinstance(n, _ast.Name) and isinstance(n.ctx, _ast.Store)}
+                free = {n.id for b_ in node.body for n in _ast.walk(b_) if isinstance(n, _ast.Name) and isinstance(n.ctx, _ast.Load)} - params - assigned
+                if free & loopvars and isinstance(parent, (_ast.For, _ast.AsyncFor, _ast.If, _ast.With, _ast.Try)):
+                    sibs = parent.body if isinstance(parent, (_ast.For, _ast.AsyncFor)) else [s_ for s_ in _ast.walk(parent) if isinstance(s_, _ast.stmt)]
+                    escapes = False
+                    called_here = False
+                    for s_ in sibs:
+                        for n in _ast.walk(s_):
+                            if isinstance(n, _ast.Call) and isinstance(n.func, _ast.Attribute) and n.func.attr in ('append', 'add', 'insert', 'appendleft', 'put', 'setdefault') \
+                                    and any(isinstance(x_, _ast.Name) and x_.id == node.name for a_ in n.args for x_ in _ast.walk(a_)):
+                                escapes = True
+                            if isinstance(n, (_ast.Yield, _ast.Return) if with_yield else _ast.Return) and n.value is not None \
+                                    and any(isinstance(x_, _ast.Name) and x_.id == node.name for x_ in _ast.walk(n.value)) \
+                                    and not any(isinstance(c_, _ast.Call) and isinstance(c_.func, _ast.Name) and c_.func.id == node.name for c_ in _ast.walk(n.value)):
+                                escapes = True
+                            if isinstance(n, _ast.Assign) and any(isinstance(t_, (_ast.Subscript, _ast.Attribute)) for t_ in n.targets) and isinstance(n.value, _ast.Name) and n.value.id == node.name:
+                                escapes = True
+                    if escapes:
+                        out.append((g.site(node), sorted(free & loopvars), 'def %s(...)' % node.name))
             if isinstance(node, _ast.Lambda) and loopvars:
                 params = {a.arg for a in node.args.args + node.args.kwonlyargs + node.args.posonlyargs}
                 if node.args.vararg:
